@@ -8,22 +8,23 @@
    the client abort (client_run returns Abort, i.e. an error before any application data).
    State of the files: they describe the tree WITH fixes/C12-tls12-unoffered-curve.diff applied
    (env_fixed); the pre-fix behaviour is kept as env_unfixed and refuted below. *)
-From UV Require Import Base.Common Model.Negotiate Model.NegotiateSess Proofs.NegotiateP Proofs.NegotiateSessP.
+From UV Require Import Base.Common Model.Negotiate Model.NegotiateSess Model.NegotiateKeys Proofs.NegotiateP Proofs.NegotiateSessP Proofs.NegotiateKeysP.
+From UV Require Model.KeyShare Model.Complete.
 
 (* TLS 1.3 cipher suite (ServerHello and HelloRetryRequest) *)
-Theorem C12_suite_tls13 : forall e v w fl st,
+Theorem C12_suite_tls13_core : forall e v w fl st,
   synced v w = true -> client_run_gen e v fl = Complete st -> cs_vers st = V13 ->
   cs_suite st = h_suite (f_sh fl) /\ In (cs_suite st) (w_suites w) /\ In (cs_suite st) tls13_suites
   /\ (forall h, f_hrr fl = Some h -> h_suite h = cs_suite st).
 Proof. exact wire_suite13. Qed.
-Print Assumptions C12_suite_tls13.
+Print Assumptions C12_suite_tls13_core.
 
 (* TLS <= 1.2 cipher suite: offered and an implemented TLS <= 1.2 suite ... *)
-Theorem C12_suite_tls12 : forall e v w fl st,
+Theorem C12_suite_tls12_core : forall e v w fl st,
   synced v w = true -> client_run_gen e v fl = Complete st -> cs_vers st <> V13 ->
   cs_suite st = h_suite (first_hello fl) /\ In (cs_suite st) (w_suites w) /\ In (cs_suite st) (e_impl12 e).
 Proof. exact wire_suite12. Qed.
-Print Assumptions C12_suite_tls12.
+Print Assumptions C12_suite_tls12_core.
 
 (* ... hence never a TLS 1.3 suite in a TLS 1.2 ServerHello, even when that suite was offered for 1.3 *)
 Theorem C12_no_suite_confusion : forall x, In x impl12_default -> ~ In x tls13_suites.
@@ -32,7 +33,7 @@ Print Assumptions C12_no_suite_confusion.
 
 (* TLS 1.3 key-exchange group: a key_share group of the hello, or - after a HelloRetryRequest naming a group -
    that group, which was in supported_groups and not among the key shares *)
-Theorem C12_group_tls13 : forall e v w fl st,
+Theorem C12_group_tls13_core : forall e v w fl st,
   synced v w = true -> client_run_gen e v fl = Complete st -> cs_vers st = V13 ->
   cs_group st = h_share (f_sh fl)
   /\ match f_hrr fl with
@@ -42,50 +43,50 @@ Theorem C12_group_tls13 : forall e v w fl st,
                      /\ In (cs_group st) (w_groups w) /\ ~ In (cs_group st) (w_shares w))
      end.
 Proof. exact wire_group13. Qed.
-Print Assumptions C12_group_tls13.
+Print Assumptions C12_group_tls13_core.
 
 (* ALPN (EncryptedExtensions in 1.3, ServerHello below): none, or one the hello listed *)
-Theorem C12_alpn : forall e v w fl st,
+Theorem C12_alpn_core : forall e v w fl st,
   synced v w = true -> client_run_gen e v fl = Complete st ->
   cs_alpn st = [] \/ In (cs_alpn st) (w_alpn w).
 Proof. exact wire_alpn. Qed.
-Print Assumptions C12_alpn.
+Print Assumptions C12_alpn_core.
 
 (* compression method of every hello acted on (HRR, ServerHello): null, which the hello listed *)
-Theorem C12_compression : forall e v w fl st,
+Theorem C12_compression_core : forall e v w fl st,
   synced v w = true -> client_run_gen e v fl = Complete st ->
   forall h, (f_hrr fl = Some h \/ (cs_vers st = V13 /\ h = f_sh fl) \/ (cs_vers st <> V13 /\ h = first_hello fl)) ->
             h_comp h = 0 /\ In (h_comp h) (w_comps w).
 Proof. exact wire_compression. Qed.
-Print Assumptions C12_compression.
+Print Assumptions C12_compression_core.
 
 (* PSK: a selected identity indexes an identity the hello carried *)
-Theorem C12_psk_identity : forall e v w fl st,
+Theorem C12_psk_identity_core : forall e v w fl st,
   synced v w = true -> client_run_gen e v fl = Complete st -> cs_vers st = V13 ->
   forall i, h_psk (f_sh fl) = Some i -> i < w_psk w.
 Proof. exact wire_psk. Qed.
-Print Assumptions C12_psk_identity.
+Print Assumptions C12_psk_identity_core.
 
 (* certificate compression: a CompressedCertificate is only accepted with an advertised algorithm *)
-Theorem C12_cert_compression : forall e v w fl st,
+Theorem C12_cert_compression_core : forall e v w fl st,
   synced v w = true -> client_run_gen e v fl = Complete st -> cs_vers st = V13 -> cs_psk st = false ->
   forall a, f_ccert fl = Some a -> In a (w_ccalgs w).
 Proof. exact wire_certcomp. Qed.
-Print Assumptions C12_cert_compression.
+Print Assumptions C12_cert_compression_core.
 
 (* TLS 1.3 legacy session id echoed (by the HRR too) *)
-Theorem C12_session_id_echo : forall e v w fl st,
+Theorem C12_session_id_echo_core : forall e v w fl st,
   synced v w = true -> client_run_gen e v fl = Complete st -> cs_vers st = V13 ->
   h_sid (f_sh fl) = w_sid w /\ (forall h, f_hrr fl = Some h -> h_sid h = w_sid w).
 Proof. exact wire_sessionid. Qed.
-Print Assumptions C12_session_id_echo.
+Print Assumptions C12_session_id_echo_core.
 
 (* TLS <= 1.2 ECDHE curve of the ServerKeyExchange: in supported_groups (with the repair) *)
-Theorem C12_curve_tls12 : forall v w fl st c,
+Theorem C12_curve_tls12_core : forall v w fl st c,
   synced v w = true -> client_run v fl = Complete st -> cs_vers st <> V13 -> f_skx fl = Some c ->
   In c (w_groups w).
 Proof. exact curve12_fixed. Qed.
-Print Assumptions C12_curve_tls12.
+Print Assumptions C12_curve_tls12_core.
 
 (* the same statement about the code before the repair is false (F-12): P-521 accepted although the hello
    listed X25519, P-256, P-384. The runner replays this flight against every parrot (kind curve12/real). *)
@@ -96,16 +97,98 @@ Print Assumptions C12_curve_tls12_before_fix_refuted.
 (* resumption (Model/NegotiateSess.v): the hello offers a TLS <= 1.2 session - from the cache or injected with
    SetSessionState - and the server resumes it or not: the suite of a completed handshake was on the wire, and a
    resumed session is resumed with its own version/suite only *)
-Theorem C12_suite_with_session : forall e v w sess ems fl st,
+Theorem C12_suite_with_session_core : forall e v w sess ems fl st,
   synced v w = true -> client_run_sess e v sess ems fl = Complete st -> In (cs_suite st) (w_suites w).
 Proof. exact wire_suite_sess. Qed.
-Print Assumptions C12_suite_with_session.
+Print Assumptions C12_suite_with_session_core.
 
 Theorem C12_resumed_session_suite : forall e v vers h fl s ems st,
   resumes v (Some s) h = true -> run12_sess e v vers h fl (Some s) ems = Complete st ->
   s_vers s = vers /\ s_suite s = cs_suite st /\ In (cs_suite st) (cv_suites v) /\ s_ems s = ems.
 Proof. exact run12_sess_resumed. Qed.
 Print Assumptions C12_resumed_session_suite.
+
+(* ======== the statements over the decision function of the CURRENT tree ========
+   The _core theorems above hold for every view. Since the C18 repair establishHandshakeKeys picks the private key by the
+   server share's group (any retained classical key, not only the first): the client's decision is
+   Complete.client_run10 fixed e v ks fl (Model/Complete.v; ks = curves of the retained keys, fixed = the tree has the
+   repair), which is client_run_gen on the view whose cv_ecdhe is the curve of that key. This is the function the
+   correspondence compares the Go client with (Corr/C12Corr.v). Same conclusions: *)
+Theorem C12_suite_tls13 : forall fixed e v ks w fl st,
+  synced v w = true -> Complete.client_run10 fixed e v ks fl = Complete st -> cs_vers st = V13 ->
+  cs_suite st = h_suite (f_sh fl) /\ In (cs_suite st) (w_suites w) /\ In (cs_suite st) tls13_suites
+  /\ (forall h, f_hrr fl = Some h -> h_suite h = cs_suite st).
+Proof. exact wire10_suite13. Qed.
+Print Assumptions C12_suite_tls13.
+
+Theorem C12_suite_tls12 : forall fixed e v ks w fl st,
+  synced v w = true -> Complete.client_run10 fixed e v ks fl = Complete st -> cs_vers st <> V13 ->
+  cs_suite st = h_suite (first_hello fl) /\ In (cs_suite st) (w_suites w) /\ In (cs_suite st) (e_impl12 e).
+Proof. exact wire10_suite12. Qed.
+Print Assumptions C12_suite_tls12.
+
+Theorem C12_group_tls13 : forall fixed e v ks w fl st,
+  synced v w = true -> Complete.client_run10 fixed e v ks fl = Complete st -> cs_vers st = V13 ->
+  cs_group st = h_share (f_sh fl)
+  /\ match f_hrr fl with
+     | None => In (cs_group st) (w_shares w)
+     | Some h => (h_selgroup h = 0 /\ In (cs_group st) (w_shares w))
+                 \/ (h_selgroup h <> 0 /\ cs_group st = h_selgroup h
+                     /\ In (cs_group st) (w_groups w) /\ ~ In (cs_group st) (w_shares w))
+     end.
+Proof. exact wire10_group13. Qed.
+Print Assumptions C12_group_tls13.
+
+Theorem C12_alpn : forall fixed e v ks w fl st,
+  synced v w = true -> Complete.client_run10 fixed e v ks fl = Complete st ->
+  cs_alpn st = [] \/ In (cs_alpn st) (w_alpn w).
+Proof. exact wire10_alpn. Qed.
+Print Assumptions C12_alpn.
+
+Theorem C12_compression : forall fixed e v ks w fl st,
+  synced v w = true -> Complete.client_run10 fixed e v ks fl = Complete st ->
+  forall h, (f_hrr fl = Some h \/ (cs_vers st = V13 /\ h = f_sh fl) \/ (cs_vers st <> V13 /\ h = first_hello fl)) ->
+            h_comp h = 0 /\ In (h_comp h) (w_comps w).
+Proof. exact wire10_compression. Qed.
+Print Assumptions C12_compression.
+
+Theorem C12_psk_identity : forall fixed e v ks w fl st,
+  synced v w = true -> Complete.client_run10 fixed e v ks fl = Complete st -> cs_vers st = V13 ->
+  forall i, h_psk (f_sh fl) = Some i -> i < w_psk w.
+Proof. exact wire10_psk. Qed.
+Print Assumptions C12_psk_identity.
+
+Theorem C12_cert_compression : forall fixed e v ks w fl st,
+  synced v w = true -> Complete.client_run10 fixed e v ks fl = Complete st -> cs_vers st = V13 -> cs_psk st = false ->
+  forall a, f_ccert fl = Some a -> In a (w_ccalgs w).
+Proof. exact wire10_certcomp. Qed.
+Print Assumptions C12_cert_compression.
+
+Theorem C12_session_id_echo : forall fixed e v ks w fl st,
+  synced v w = true -> Complete.client_run10 fixed e v ks fl = Complete st -> cs_vers st = V13 ->
+  h_sid (f_sh fl) = w_sid w /\ (forall h, f_hrr fl = Some h -> h_sid h = w_sid w).
+Proof. exact wire10_sessionid. Qed.
+Print Assumptions C12_session_id_echo.
+
+Theorem C12_curve_tls12 : forall fixed v ks w fl st c,
+  synced v w = true -> Complete.client_run10 fixed env_fixed v ks fl = Complete st -> cs_vers st <> V13 ->
+  f_skx fl = Some c -> In c (w_groups w).
+Proof. exact curve12_fixed10. Qed.
+Print Assumptions C12_curve_tls12.
+
+Theorem C12_suite_with_session : forall fixed e v ks w sess ems fl st,
+  synced v w = true -> client_run_sess10 fixed e v ks sess ems fl = Complete st -> In (cs_suite st) (w_suites w).
+Proof. exact wire10_suite_sess. Qed.
+Print Assumptions C12_suite_with_session.
+
+(* what the repair changed: the second offered key share (Firefox-type hello, shares X25519 and P-256, server selects P-256)
+   completes with it, aborted ("invalid server key share") before - in both cases on an OFFERED group *)
+Example C12_ex_second_share :
+  Complete.client_run10 true env_fixed ff_view (KeyShare.mkShape 29 [23] false 0) ff_flight
+  = Complete (mkState 772 4865 23 [] false false)
+  /\ Complete.client_run10 false env_fixed ff_view (KeyShare.mkShape 29 [] false 0) ff_flight = Abort a_illegal_parameter
+  /\ client_run ff_view ff_flight = Abort a_illegal_parameter.
+Proof. exact second_share_after_c18. Qed.
 
 (* ---- every hypothesis is satisfiable by concrete non-trivial inputs ---- *)
 Example C12_ex_complete13 :
@@ -365,6 +448,24 @@ Example C12_ex_fake_psk_view_smaller :
   end.
 Proof. exact ComposeW.psk_disagree_fake. Qed.
 
+(* for every shipped parrot (Gen/Parrots.v), every rearrangement the shuffle can produce, every Config with an SNI name of
+   at most 255 bytes and OmitEmptyPsk, every randomness: no premise on ApplyPreset's output left (Model/PresetOk.v,
+   Proofs/PresetOkC.v; reading guide at the end of Props/C02.v) *)
+From UV Require Model.PresetOk Model.Shuffle Model.ParrotSpec Gen.Parrots Proofs.PresetOkC.
+Theorem C12_view_is_wire_from_parrot : forall p swaps exts', In p Parrots.all ->
+  Shuffle.shuffle ParrotSpec.fixedb swaps (Preset.sp_exts (Preset.p_spec p)) = Ok exts' ->
+  forall c fr h es, PresetOkC.parrot_class c ->
+  Preset.apply_preset (PresetOk.with_exts (Preset.p_spec p) exts') c fr = Ok (h, es) ->
+  forall mn mx env bbs padto raw s' load ecdhe mlkem sess,
+  ChMarshal.marshal_hello bbs padto h es = Ok raw ->
+  WriteToUConn.apply_config env (ChMarshal.marshal_hello bbs padto h es) (ComposeW.preset_state h mn mx) es = Ok s' ->
+  WriteToUConn.psk_agree (WriteToUConn.finish load es s') es = true ->
+  exists w, WriteToUConn.wire_of raw = Some w
+            /\ synced (WriteToUConn.view_of (WriteToUConn.finish load es s') es ecdhe mlkem sess) w = true.
+Proof. exact PresetOkC.parrot_synced. Qed.
+Print Assumptions C12_view_is_wire_from_parrot.
+
 (* Imported LAST and only so that the driver's closure scan (lib/vcheck.py follows "Require Import" lines) covers the
    composition files; nothing follows, so no name of this file is shadowed. *)
 From UV Require Import Model.WriteToUConn Proofs.ComposeP Proofs.ComposeW.
+From UV Require Import Model.PresetOk Proofs.PresetOkP Proofs.PresetOkS Proofs.PresetOkT Proofs.PresetOkC.
